@@ -31,8 +31,8 @@ for ch in ("A", "W"):
     ob(id="EqualsUri.%s.H" % ch, props=["C11", "C12", "C19", "C20"], route="H", harness="c11_equals.c", char=ch,
        group="EqualsUri <=> view equality, NULL handling, empty frame",
        defines=by_tier({"VM": 2, "VL": 2, "VT": 4}, {"VM": 3, "VL": 3, "VT": 6}),
-       unwindset=by_tier({"uri%s.0" % ("EqualsUri" + ch): 3, "strncmp.0": 3, "wcsncmp.0": 3, "memcmp.0": 17},
-                         {"uri%s.0" % ("EqualsUri" + ch): 4, "strncmp.0": 4, "wcsncmp.0": 4, "memcmp.0": 17}),
+       unwindset=by_tier({"uri%s.*" % ("EqualsUri" + ch): 3, "strncmp.*": 3, "wcsncmp.*": 3, "memcmp.*": 17},
+                         {"uri%s.*" % ("EqualsUri" + ch): 4, "strncmp.*": 4, "wcsncmp.*": 4, "memcmp.*": 17}),
        level="B", bounds=by_tier("<=2 segments, <=2 characters per component", "<=3 segments, <=3 characters per component"),
        functions=["uriEqualsUri" + ch, "uriCompareRange" + ch], stubs=[], inlined=["uriCompareRange" + ch],
        kf=["C11-abspath-ignored-when-scheme-present"],
@@ -67,3 +67,112 @@ c15("uriCompleteMemoryManager", "h_Complete")
 ob(id="lemma.mul_overflow_check.Lean", props=["C15"], route="L", harness="", cmd=["lean", "{VERIF}/spec/lemmas/MulOverflow.lean"],
    group="lemma mul_overflow_check: (n != 0 && ((n*s) mod 2^64)/n != s) <=> n*s >= 2^64, all n,s < 2^64 (Lean 4 kernel)",
    level="P", bounds="none", functions=[], backend="lean 4.33", timeout_s=300, mem_gb=8)
+
+# ----------------------------------------------------------------------------------------------------------------
+# C06 (+C07,C12,C13,C14)  reference resolution, whole operation with real callees inlined
+RESOLVE_FUNCS = ["uriAddBaseUriExMm%s", "uriAddBaseUriImpl%s", "uriCopyAuthority%s", "uriCopyPath%s", "uriMergePath%s",
+                 "uriResolveAbsolutePathFlag%s", "uriRemoveDotSegmentsAbsolute%s", "uriRemoveDotSegmentsEx%s", "uriFixAmbiguity%s",
+                 "uriFixEmptyTrailSegment%s", "uriFreeUriMembersMm%s", "uriCompareRange%s", "uriIsHostSet%s", "uriResetUri%s"]
+
+
+def resolve_uw(ch, m, l):
+    n = 2 * m + 3
+    return {"uriCopyPath%s.*" % ch: m + 1, "uriMergePath%s.*" % ch: m + 1, "uriRemoveDotSegmentsEx%s.0" % ch: l + 1,
+            "uriRemoveDotSegmentsEx%s.1" % ch: 2 * m + 1, "uriFreeUriMembersMm%s.*" % ch: n + 1,
+            "uriAddBaseUriExMm%s.*" % ch: 2, "strncmp.*": l + 1, "wcsncmp.*": l + 1}
+
+
+for ch in ("A", "W"):
+    ob(id="AddBaseUri.%s.H" % ch, props=["C06", "C07", "C12", "C13", "C14", "C19", "C20"], route="H", harness="c06_resolve.c", char=ch,
+       group="uriAddBaseUriExMm whole operation against spec_resolve (RFC 3986 5.2.2), ledger, fault injection, frames",
+       defines=by_tier({"VM": 2, "VL": 2, "VT": 4}, {"VM": 3, "VL": 2, "VT": 4}),
+       unwindset=by_tier(resolve_uw(ch, 2, 2), resolve_uw(ch, 3, 2)),
+       level="B", bounds=by_tier("base and reference: <=2 segments each, <=2 characters per component; every allocation request may fail",
+                                 "base and reference: <=3 segments each, <=2 characters per component; every allocation request may fail"),
+       functions=[f % ch for f in RESOLVE_FUNCS], inlined=[f % ch for f in RESOLVE_FUNCS[1:]],
+       stubs=["memory manager (ledger stub harness/vmm.h)"],
+       kf=["C06-unrooted-empty-first", "C06-dslash-no-guard"],
+       timeout_s=by_tier(900, 7200), mem_gb=by_tier(10, 24))
+
+# ----------------------------------------------------------------------------------------------------------------
+# C05/C04  recomposition (ToStringEngine), split by host kind
+HKNAME = {0: "nohost", 1: "regname", 2: "ip4", 3: "ip6", 4: "ipfuture"}
+for ch in ("A", "W"):
+    csz = 1 if ch == "A" else 4
+    for hk in range(5):
+        ob(id="ToString.cap.%s.%s.H" % (HKNAME[hk], ch), props=["C05", "C12", "C19", "C20"], route="H", harness="c05_tostring.c", char=ch,
+           group="uriToString/uriToStringCharsRequired over uriToStringEngine: exact sizes, capacity protocol, no write beyond capacity",
+           defines=by_tier({"VM": 2, "VL": 2, "VT": 4, "HKMIN": hk, "HKMAX": hk}, {"VM": 3, "VL": 3, "VT": 6, "HKMIN": hk, "HKMAX": hk}),
+           unwindset={"uriToStringEngine%s.*" % ch: 17},
+           level="B", bounds=by_tier("<=2 segments, <=2 characters per component; every capacity from -2 to length+3 (destination block of exactly that size)",
+                                     "<=3 segments, <=3 characters per component; every capacity from -2 to length+3"),
+           functions=["uriToString" + ch, "uriToStringCharsRequired" + ch, "uriToStringEngine" + ch],
+           inlined=["uriIsHostSet" + ch, "uriHexToLetterEx" + ch], stubs=["memcpy (check-only stub asserting w_ok/r_ok of the whole slice)"],
+           timeout_s=by_tier(900, 3600), mem_gb=by_tier(10, 20))
+        ob(id="ToString.content.%s.%s.H" % (HKNAME[hk], ch), props=["C04", "C19"], route="H", harness="c05_tostring.c", char=ch,
+           group="uriToString content == RFC 3986 5.3 recomposition of the view (ghost-indexed)",
+           defines=by_tier({"VM": 2, "VL": 2, "VT": 4, "HKMIN": hk, "HKMAX": hk, "V_CONTENT": 1}, {"VM": 3, "VL": 3, "VT": 6, "HKMIN": hk, "HKMAX": hk, "V_CONTENT": 1}),
+           unwindset=by_tier({"uriToStringEngine%s.*" % ch: 17, "memcpy.*": 4}, {"uriToStringEngine%s.*" % ch: 17, "memcpy.*": 4}),
+           level="B", bounds=by_tier("<=2 segments, <=2 characters per component; ample capacity", "<=3 segments, <=3 characters per component; ample capacity"),
+           functions=["uriToString" + ch, "uriToStringEngine" + ch],
+           inlined=["uriIsHostSet" + ch, "uriHexToLetterEx" + ch], stubs=["memcpy (byte loop, harness/vlibc.h)"],
+           timeout_s=by_tier(900, 3600), mem_gb=by_tier(10, 20))
+
+# ----------------------------------------------------------------------------------------------------------------
+# C08 (+C09,C07,C12,C13,C14)  syntax-based normalization, whole operation with real callees inlined
+NORM_FUNCS = ["uriNormalizeSyntaxExMm%s", "uriNormalizeSyntaxMaskRequiredEx%s", "uriNormalizeSyntaxEngine%s", "uriMakeOwnerEngine%s",
+              "uriMakeRangeOwner%s", "uriPreventLeakage%s", "uriLowercaseInplace%s", "uriLowercaseMalloc%s",
+              "uriFixPercentEncodingEngine%s", "uriFixPercentEncodingInplace%s", "uriFixPercentEncodingMalloc%s",
+              "uriContainsUppercaseLetters%s", "uriContainsUglyPercentEncoding%s", "uriRemoveDotSegmentsEx%s",
+              "uriFixEmptyTrailSegment%s", "uriFreeUriMembersMm%s", "uriHexdigToInt%s", "uriHexToLetter%s"]
+
+
+def norm_uw(ch, m, l):
+    return {"uriContainsUppercaseLetters%s.*" % ch: l + 1, "uriContainsUglyPercentEncoding%s.*" % ch: l + 1,
+            "uriLowercaseInplace%s.*" % ch: l + 1, "uriLowercaseMalloc%s.*" % ch: l + 1,
+            "uriFixPercentEncodingEngine%s.*" % ch: l + 1, "uriMakeOwnerEngine%s.*" % ch: m + 2,
+            "uriPreventLeakage%s.*" % ch: m + 2, "uriNormalizeSyntaxEngine%s.*" % ch: m + 2,
+            "uriRemoveDotSegmentsEx%s.0" % ch: l + 1, "uriRemoveDotSegmentsEx%s.1" % ch: m + 1,
+            "uriFreeUriMembersMm%s.*" % ch: m + 3, "uriNormalizeSyntaxExMm%s.*" % ch: 2, "memcpy.*": 170}
+
+
+MASKMODE = {1: "nonpath", 2: "pathonly", 3: "full"}
+for ch in ("A", "W"):
+    for owned in (0, 1):
+        for mm in (1, 2, 3):
+            ob(id="NormalizeSyntax.%s.%s.%s.H" % ("owned" if owned else "borrowed", MASKMODE[mm], ch),
+               props=["C08", "C09", "C07", "C12", "C13", "C14", "C19", "C20"], route="H", harness="c08_normalize.c", char=ch,
+               group="uriNormalizeSyntaxExMm / MaskRequiredEx whole operation against the RFC 3986 6.2.2 normal form, ownership, ledger, fault injection",
+               defines=by_tier({"VM": 2, "VL": 3, "VT": 4, "V_OWNED": owned, "VSTUB_MEMCPY": 1, "V_MASKMODE": mm},
+                               {"VM": 3, "VL": 3, "VT": 5, "V_OWNED": owned, "VSTUB_MEMCPY": 1, "V_MASKMODE": mm}),
+               unwindset=by_tier(norm_uw(ch, 2, 3), norm_uw(ch, 3, 3)),
+               level="B", bounds=by_tier("<=2 segments, <=3 characters per component, masks: %s, every allocation request may fail" % MASKMODE[mm],
+                                         "<=3 segments, <=3 characters per component, masks: %s, every allocation request may fail" % MASKMODE[mm]),
+               functions=[f % ch for f in NORM_FUNCS], inlined=[f % ch for f in NORM_FUNCS[2:]],
+               stubs=["memory manager (ledger stub)", "memcpy (element loop)"],
+               kf=["C08-host-percent-encoding-lowercased", "C08-network-path-reference-treated-as-relative", "C09-relative-path-collapses",
+                   "C14-normalize-borrowed-path-leak"],
+               timeout_s=by_tier(1500, 7200), mem_gb=by_tier(12, 24))
+
+# ----------------------------------------------------------------------------------------------------------------
+# C10 (+C07,C12,C13,C14)  reference creation, whole operation with real callees inlined
+SHORTEN_FUNCS = ["uriRemoveBaseUriMm%s", "uriRemoveBaseUriImpl%s", "uriEqualsAuthority%s", "uriAppendSegment%s", "uriCopyAuthority%s",
+                 "uriCopyPath%s", "uriFixAmbiguity%s", "uriCompareRange%s", "uriFreeUriMembersMm%s", "uriResetUri%s"]
+
+
+def shorten_uw(ch, m, l):
+    return {"uriRemoveBaseUriImpl%s.*" % ch: max(m, l) + 2, "uriCopyPath%s.*" % ch: m + 1, "uriFreeUriMembersMm%s.*" % ch: 2 * m + 3,
+            "uriRemoveBaseUriMm%s.*" % ch: 2, "strncmp.*": l + 1, "wcsncmp.*": l + 1, "memcmp.*": 17}
+
+
+for ch in ("A", "W"):
+    ob(id="RemoveBaseUri.%s.H" % ch, props=["C10", "C07", "C12", "C13", "C14", "C19", "C20"], route="H", harness="c10_shorten.c", char=ch,
+       group="uriRemoveBaseUriMm whole operation: inverse of spec_resolve, omission rules, error codes, ledger, fault injection, frames",
+       defines=by_tier({"VM": 2, "VL": 2, "VT": 4}, {"VM": 3, "VL": 2, "VT": 4}),
+       unwindset=by_tier(shorten_uw(ch, 2, 2), shorten_uw(ch, 3, 2)),
+       level="B", bounds=by_tier("source and base: <=2 segments each, <=2 characters per component; every allocation request may fail",
+                                 "source and base: <=3 segments each, <=2 characters per component; every allocation request may fail"),
+       functions=[f % ch for f in SHORTEN_FUNCS], inlined=[f % ch for f in SHORTEN_FUNCS[1:]],
+       stubs=["memory manager (ledger stub)"],
+       kf=["C10-authority-compared-by-host-only", "C10-empty-reference-keeps-base-query"],
+       timeout_s=by_tier(1500, 7200), mem_gb=by_tier(10, 24))
